@@ -1691,6 +1691,13 @@ pub fn update_record_with_output<T: ColumnType>(
                     StatementExpect::Error(e) => Some(e),
                     StatementExpect::Count(_) | StatementExpect::Ok => None,
                 };
+                // An inline error message cannot be followed by a retry clause.
+                let multiline = ExpectedError::Multiline(String::new());
+                let reference = if retry.is_some() {
+                    Some(&multiline)
+                } else {
+                    reference
+                };
                 Some(Record::Statement {
                     sql,
                     expected: StatementExpect::Error(ExpectedError::from_actual_error(
@@ -1727,6 +1734,13 @@ pub fn update_record_with_output<T: ColumnType>(
                 let reference = match &r {
                     QueryExpect::Error(e) => Some(e),
                     QueryExpect::Results { .. } => None,
+                };
+                // An inline error message cannot be followed by a retry clause.
+                let multiline = ExpectedError::Multiline(String::new());
+                let reference = if retry.is_some() {
+                    Some(&multiline)
+                } else {
+                    reference
                 };
                 Some(Record::Query {
                     sql,
